@@ -19,6 +19,7 @@ import (
 )
 
 const farFuture = int64(4102444800) // 2100-01-01
+const year2300 = int64(10413792000) // 2300-01-01: UnixNano overflows (from 2262-04-12 on)
 
 type verSnap struct {
 	Version string // as returned by s3db_version
@@ -268,6 +269,11 @@ func (r *mwRun) vacuumStep(s MWStep, where string) error {
 	far := s.Cut < 0
 	if far {
 		cutSec = farFuture
+	}
+	if s.Cut == -2 {
+		// a cutoff whose nanosecond count does not fit 64 bits (year 2300): "any cutoff"
+		cutSec = year2300
+		r.o.Class("vacuum-cutoff-beyond-int64-nanoseconds")
 	}
 	modelCut := s.Cut
 	if far {
